@@ -4,6 +4,8 @@ JOBS = [
     Job('timers.n3.s1', 'C02/timers.cpp', 'h_timers', 'B', defs={'NT': 3, 'NSTEP': 1}, reach=['timers'], timeout=1700, clause='3 timers (two sharing deadlines), 1 symbolic step'),
     Job('timers.n2.s3', 'C02/timers.cpp', 'h_timers', 'B', defs={'NT': 2, 'NSTEP': 3}, reach=['timers'], timeout=3400, tier='thorough', clause='2 timers, 3 symbolic steps'),
     Job('timers.n3.s2', 'C02/timers.cpp', 'h_timers', 'B', defs={'NT': 3, 'NSTEP': 2}, reach=['timers'], timeout=3400, tier='thorough', clause='3 timers, 2 symbolic steps'),
+    Job('timer.long', 'C02/timers.cpp', 'h_timer_long', 'B', reach=['timer_long'], timeout=900, clause='one timer with ANY interval 1 ms .. 2^34 ms (one-shot or persistent): not before t+d, at t+d, second period not before t+2d'),
+    Job('timer.pool', 'C02/timers.cpp', 'h_timer_pool', 'B', reach=['timer_pool'], timeout=900, clause='eventx::TimerPool on the real loop timers: doAfter(20) cancels (or not) a doAfter/doEvery(21) task from inside its callback; clock advances 19/20/21/60 twice: a cancelled task never runs, the others run for every due period'),
 ]
 META = dict(
     explanation='Path-wise symbolic execution (engine/symir.py, z3) of the real CommonLoop timer code (addTimer / deleteTimer / handleExpiredTimers / getWaitTime with std::push_heap/pop_heap/make_heap), TimerEventImpl, Cabinet and ObjectPool. '
